@@ -61,9 +61,7 @@ func (v *VerifWheel) TickTime() int64  { return v.t.tickTime }
 func (v *VerifWheel) HandleAdd() bool {
 	select {
 	case node := <-v.t.pendingAdd:
-		// the worker's arm, repeated (it is written inline in worker())
-		node.deadline += v.t.tickTime + node.period
-		v.t.addNode(node)
+		v.t.handleAdd(node)
 		return true
 	default:
 		return false
